@@ -144,17 +144,34 @@ func streamRule(r *lib.Rng) string {
 }
 
 // oddRule: the "rule" member present but not what the handler expects
+// oddRules: the "rule" member present but not what the handler expects, and the corners of its decoding
+var oddRules = [][2]string{
+	{"null", "rule-null"}, {`"a string"`, "rule-string"}, {"17", "rule-number"}, {"[]", "rule-array"}, {"{}", "rule-empty-object"},
+	{"true", "rule-bool"}, {`{"id":5,"stream":"s","destination":"ws://127.0.0.1:9/"}`, "rule-field-number"},
+	{`{"id":null,"stream":null}`, "rule-field-null"}, {`{"ID":"upper","STREAM":"s","Destination":"ws://127.0.0.1:9/"}`, "rule-case-keys"},
+	{`{"id":"dup1","id":"dup2","stream":"s"}`, "rule-dup-keys"}, {`{"stream":"s","feeds":"notalist"}`, "rule-feeds-string"},
+	{`{"stream":"s","feeds":[1,2]}`, "rule-feeds-numbers"}, {`{"stream":["s"],"feeds":["a"]}`, "rule-stream-array"},
+	{`{"id":"x","extra":{"deep":[1,2,{"a":null}]}}`, "rule-extra-members"}, {`{"id":"deleteAll","stream":"s","destination":"ws://127.0.0.1:9/"}`, "rule-reserved-id"},
+	{`{"id":"apiRule","stream":"api","destination":"ws://127.0.0.1:9/elsewhere"}`, "rule-id-apiRule"},
+	{`{"id":"\ud800","stream":"\u0000"}`, "rule-odd-escapes"},
+	{`{"ſtream":"long-s","toKen":"kelvin","id":"fold1","deſtination":"ws://127.0.0.1:9/f"}`, "rule-unicode-fold-keys"},
+	{`{"STREAM":"s-up","Feeds":["a"],"FEEDS":["b","c"]}`, "rule-case-dup-keys"},
+	{`{"stream":"s-n","feeds":["a","b"],"feeds":[null]}`, "rule-feeds-dup-null-element"},
+	{`{"stream":"s-n2","feeds":[null,"x",null]}`, "rule-feeds-null-elements"},
+	{`{"stream":"s-e","feeds":["a",1,{"b":2},"c"]}`, "rule-feeds-mixed-elements"},
+	{`{"stream":"s-o","feeds":{"0":"a"}}`, "rule-feeds-object"},
+	{`{"stream":"s-z","feeds":null,"feeds":[]}`, "rule-feeds-null-then-empty"},
+	{`{"id":"i1","id":null,"stream":null,"stream":"s","destination":"ws://127.0.0.1:9/d","token":{"a":1},"file":[1]}`, "rule-two-type-errors"},
+	{`{"id":{"x":"y"},"stream":true}`, "rule-field-object"},
+	{`{"id":"e\u0073c","s\u0074ream":"esc-key","destination":"ws://127.0.0.1:9/e"}`, "rule-escaped-key"},
+	{`[{"id":"in-array"}]`, "rule-array-of-object"},
+	{`false`, "rule-false"}, {`0.0`, "rule-number-lexeme"}, {`""`, "rule-empty-string"},
+	{` { "id" : "ws" , "stream" : "s" } `, "rule-inner-whitespace"},
+}
+
+// oddRule: one of them
 func oddRule(r *lib.Rng) (string, string) {
-	opts := [][2]string{
-		{"null", "rule-null"}, {`"a string"`, "rule-string"}, {"17", "rule-number"}, {"[]", "rule-array"}, {"{}", "rule-empty-object"},
-		{"true", "rule-bool"}, {`{"id":5,"stream":"s","destination":"ws://127.0.0.1:9/"}`, "rule-field-number"},
-		{`{"id":null,"stream":null}`, "rule-field-null"}, {`{"ID":"upper","STREAM":"s","Destination":"ws://127.0.0.1:9/"}`, "rule-case-keys"},
-		{`{"id":"dup1","id":"dup2","stream":"s"}`, "rule-dup-keys"}, {`{"stream":"s","feeds":"notalist"}`, "rule-feeds-string"},
-		{`{"stream":"s","feeds":[1,2]}`, "rule-feeds-numbers"}, {`{"stream":["s"],"feeds":["a"]}`, "rule-stream-array"},
-		{`{"id":"x","extra":{"deep":[1,2,{"a":null}]}}`, "rule-extra-members"}, {`{"id":"deleteAll","stream":"s","destination":"ws://127.0.0.1:9/"}`, "rule-reserved-id"},
-		{`{"id":"apiRule","stream":"api","destination":"ws://127.0.0.1:9/elsewhere"}`, "rule-id-apiRule"},
-		{`{"id":"\ud800","stream":"\u0000"}`, "rule-odd-escapes"},
-	}
+	opts := oddRules
 	o := opts[r.Intn(len(opts))]
 	return o[0], o[1]
 }
@@ -264,6 +281,61 @@ func genCommand(r *lib.Rng) ([]byte, string) {
 		sep, open, cl = " ,\n\t", " { ", " }\r\n"
 	}
 	return []byte(open + strings.Join(parts, sep) + cl), strings.Join(fam, "/")
+}
+
+// decoderCorners: messages aimed at the corners of json.Unmarshal into vw.Command (the model decodes every one
+// of them from the bytes and must arrive at what the real decoder produced)
+var decoderCorners = []string{
+	`{"VERB":"list","WHAT":"destination","WHICH":"all"}`,
+	`{"Verb":"list","What":"stream","Which":"all"}`,
+	`{"vErB":"healthcheck"}`,
+	`{"verb":"delete","verb":"list","what":"destination","which":"all"}`,
+	`{"verb":"list","VERB":"delete","what":"stream","which":"x","Which":"all"}`,
+	`{"verb":"list","what":"destination","which":"all","verb":null}`,
+	`{"verb":null,"verb":"list","what":"destination","which":"all"}`,
+	`{"verb":"list","verb":5,"what":"destination","which":"all"}`,
+	`{"verb":5,"verb":"list","what":"destination","which":"all"}`,
+	`{"\u0076erb":"list","wh\u0061t":"destination","which":"\u0061ll"}`,
+	`{"\u0056ERB":"\u006cist","what":"stream","which":"all"}`,
+	`{"verb":"delete","what":"stream","which":"\ud800"}`,
+	`{"verb":"delete","what":"stream","which":"\udc00\ud800"}`,
+	`{"verb":"delete","what":"stream","which":"\ud83d\ude00"}`,
+	`{"verb":"delete","what":"stream","which":"\ud83dx"}`,
+	"{\"verb\":\"delete\",\"what\":\"stream\",\"which\":\"a\xffb\xc3\"}",
+	"{\"ver\xffb\":\"list\",\"verb\":\"delete\",\"what\":\"stream\",\"which\":\"k\"}",
+	`{"verb":"add","what":"destination","rule":` + strings.Repeat(`{"a":`, 50) + `1` + strings.Repeat(`}`, 50) + `}`,
+	`{"verb":"add","what":"stream","rule":` + strings.Repeat(`[`, 50) + strings.Repeat(`]`, 50) + `}`,
+	`{"verb":"add","what":"stream", "rule" :  { "stream" : "s" , "feeds" : [ "a" ] }  }`,
+	`{"verb":"add","what":"stream","RULE":{"stream":"s2"},"rule":null}`,
+	`{"verb":"add","what":"stream","rule":null,"Rule":{"stream":"s3","feeds":["x"]}}`,
+	`{"verb":"add","what":"destination","rule":"a string"}`,
+	`{"verb":"add","what":"destination","rule":true}`,
+	`{"verb":"add","what":"destination","rule":-1.5e3}`,
+	`{"verb":"5","what":"7","which":"9"}`,
+	`{"verb":"list","what":"destination","which":5}`,
+	`{"verb":"list","what":"destination","which":["all"]}`,
+	`{"verb":"list","what":"destination","which":{"x":"all"}}`,
+	`{"verb":"list","what":"destination","which":true}`,
+	`{"":"list","verb ":"list"," verb":"list","ver":"list","verbb":"list","what":"destination"}`,
+	`{"verb":"healthcheck"} `,
+	" \t\r\n{\"verb\":\"healthcheck\"}\n",
+	`{"verb":"healthcheck"}x`,
+	`{"verb":"healthcheck"},`,
+	"\xef\xbb\xbf{\"verb\":\"healthcheck\"}",
+	"{\"verb\":\"health\x00check\"}",
+	`{"verb":"health\u0000check"}`,
+	`{"verb":"healthcheck","what":"` + strings.Repeat("w", 9000) + `"}`,
+	`{"verb":"list","what":"destination","which":"all","extra":` + strings.Repeat(`[`, 200) + strings.Repeat(`]`, 200) + `}`,
+	`{"verb":"healthcheck","extra":"\q"}`,
+	`{"verb":"healthcheck","extra":01}`,
+	`{"verb":"healthcheck","extra":1.}`,
+	`{"verb":"healthcheck",}`,
+	`{"verb" "healthcheck"}`,
+	`{verb:"healthcheck"}`,
+	`null`, ` null `, `nul`, `true`, `"add"`, `0`, `[]`, `{}`, ``,
+	`{"verb":"delete","what":"destination","which":"\"quoted\"\\\/\b\f\n\r\t"}`,
+	"{\"verb\":\"delete\",\"what\":\"destination\",\"which\":\"tab\there\"}",
+	`{"ſerb":"list","verb":"healthcheck","Kerb":"x"}`,
 }
 
 // genMalformed: byte strings that are not commands at all
@@ -545,7 +617,9 @@ func genSession(r *lib.Rng, nCmd, nHTTP int, mode string) Session {
 		}
 		var msg []byte
 		var fam string
-		if r.Chance(1, 6) {
+		if r.Chance(1, 8) {
+			msg, fam = []byte(decoderCorners[r.Intn(len(decoderCorners))]), "decoder-corner"
+		} else if r.Chance(1, 6) {
 			msg, fam = genMalformed(r)
 		} else {
 			msg, fam = genCommand(r)
@@ -586,6 +660,24 @@ func corpus() []Session {
 				cmd(`{"verb":"delete","what":"destination","which":"all"}`, "delete/destination/which-all"),
 				cmd(`{"verb":"list","what":"destination","which":"all"}`, "list/destination/which-all"),
 			}})
+	}
+	// every odd rule once as a destination rule and once as a stream rule (the inner decoding corners)
+	for _, mode := range []string{"topic", "direct"} {
+		var items []Item
+		for _, o := range oddRules {
+			items = append(items, cmd(`{"verb":"add","what":"destination","rule":`+o[0]+`}`, "add/destination/"+o[1]),
+				cmd(`{"verb":"add","what":"stream","rule":`+o[0]+`}`, "add/stream/"+o[1]))
+		}
+		items = append(items, cmd(`{"verb":"list","what":"destination","which":"all"}`, "list/destination/which-all"), cmd(`{"verb":"list","what":"stream","which":"all"}`, "list/stream/which-all"))
+		out = append(out, Session{API: api, Mode: mode, Items: items})
+	}
+	// every decoder corner once, over the topic and through the handler directly
+	for _, mode := range []string{"topic", "direct"} {
+		var items []Item
+		for _, m := range decoderCorners {
+			items = append(items, cmd(m, "decoder-corner"))
+		}
+		out = append(out, Session{API: api, Mode: mode, Items: items})
 	}
 	// a complete command followed by junk is not JSON: it must be refused and change nothing
 	for _, mode := range []string{"topic", "direct"} {
